@@ -76,6 +76,18 @@ def _reread_non_name(dialect, toks):
 KNOWN = {"D35": _reread_non_name}
 
 
+def split_of(h):
+    """a large obligation is split by its first token(s): 'split' = dot-separated vocabulary indices (EOS = 20)"""
+    sp = getattr(h, "split", "")
+    return [int(x) for x in sp.split(".")] if sp else []
+
+
+def splits(depth):
+    import itertools
+    return [".".join(str(i) for i in t) for t in itertools.product(range(st.EOS + 1), repeat=depth)
+            if st.EOS not in t[:-1]] if depth else [""]
+
+
 class Stream(Harness):
     prop = "C05"
     alphabet = "ascii"
@@ -85,12 +97,15 @@ class Stream(Harness):
 
     @property
     def bounds(self):
-        return ("loader %s, the fixed token prefix %s followed by every stream of at most %d tokens over the %d-lexeme "
+        return ("loader %s, the fixed token prefix %s followed by %severy stream of at most %d tokens over the %d-lexeme "
                 "vocabulary (lazy choices), oracle = independent recogniser of the statement grammar" % (
-                    self.dialect, PREFIXES[getattr(self, "prefix", "")], self.k, len(st.VOCAB)))
+                    self.dialect, PREFIXES[getattr(self, "prefix", "")],
+                    ("the token(s) %s (one obligation per choice: together all streams of %d tokens) and " % (
+                        [(st.VOCAB + ["<end of text>"])[i] for i in split_of(self)], self.k + len(split_of(self))))
+                    if split_of(self) else "", self.k, len(st.VOCAB)))
 
     def inputs(self, ctx):
-        pre = [st.VOCAB.index(t) for t in PREFIXES[getattr(self, "prefix", "")]]
+        pre = [st.VOCAB.index(t) for t in PREFIXES[getattr(self, "prefix", "")]] + split_of(self)
         return {"stream": st.LazyStream(ctx, self.k, pre)}
 
     def prop_fn(self, L, inp):
@@ -191,9 +206,16 @@ def obligations(tier):
     quick = tier == "quick"
     obs = []
     for d in LOADERS:
-        obs.append(Stream(dialect=d, k=5 if quick else 7, prefix="", shard_bits=6 if quick else 10))
+        if quick:
+            obs.append(Stream(dialect=d, k=5, prefix="", shard_bits=6))
+        else:
+            # 6 tokens = every choice of the first one + 5 symbolic ones
+            obs += [Stream(dialect=d, k=5, prefix="", split=sp, shard_bits=3) for sp in splits(1)]
         for pre in ("ingroup", "afterstmt", "nested"):
-            obs.append(Stream(dialect=d, k=4 if quick else 6, prefix=pre, shard_bits=5 if quick else 9))
+            if quick:
+                obs.append(Stream(dialect=d, k=4, prefix=pre, shard_bits=5))
+            else:
+                obs += [Stream(dialect=d, k=4, prefix=pre, split=sp, shard_bits=3) for sp in splits(1)]
         for o in OPEN:
             for n in range(0, (2 if quick else 4) + 1):
                 obs.append(Unterminated(dialect=d, open=o, n=n, shard_bits=0 if n < 3 else 4))
